@@ -273,6 +273,10 @@ func GenC19(seed uint64, idx int) *Scenario {
 					op, ok = relatedDecodeOp(sc, &r, cfg, tn, slotSeed(seed, idx, t, tn), 2+r.Intn(14), 1)
 					op.Target = 1
 					if r.Intn(4) == 0 {
+						// the caller first shortens strings and slices of the value it re-uses
+						ops = append(ops, Op{Kind: "reslice", Target: 1, Arg: r.Intn(1000)})
+					}
+					if r.Intn(4) == 0 {
 						op.Mut = 0
 						op.Data, ok = encodeFor(sc, cfg, &op)
 					}
@@ -427,7 +431,7 @@ func GenC11(seed uint64, idx int) *Scenario {
 // ---------------------------------------------------------------------------
 // C10
 
-var c10Types = []string{"MTarget", "MTarget", "MTarget", "MNamed", "Ptrs", "Zeros", "Sparse", "SparseNew", "Wide", "Wide", "Maps", "MapKS", "MapKV", "Node", "Sym", "V2", "JDoc", "[]int", "[]string", "Tree", "Nest", "NestD", "[][]int", "map[string][]int", "IDs", "Tags", "[]null.Int", "JArr", "JNest", "[]any"}
+var c10Types = []string{"MTarget", "MTarget", "MTarget", "MNamed", "Ptrs", "Zeros", "Sparse", "SparseNew", "Pts", "[]Pt", "Wide", "Wide", "Maps", "MapKS", "MapKV", "Node", "Sym", "V2", "JDoc", "[]int", "[]string", "Tree", "Nest", "NestD", "[][]int", "map[string][]int", "IDs", "Tags", "[]null.Int", "JArr", "JNest", "[]any"}
 
 func GenC10(seed uint64, idx int) *Scenario {
 	r := engine.PRNG{S: engine.Mix(seed, 0xC10, uint64(idx))}
@@ -475,14 +479,17 @@ func GenC10(seed uint64, idx int) *Scenario {
 				vocab = 1
 			}
 			sizes := []int{1, 2, 4, 8, 16, 30}
+			if (tn == "Pts" || tn == "[]Pt") && r.Intn(2) == 0 {
+				sizes = []int{90, 120, 160} // long first-level slices (kilobytes of elements)
+			}
 			var op Op
 			var ok bool
 			switch r.Intn(8) {
 			case 0:
-				op, ok = concatOp(sc, &r, cfg, tn, sizes[r.Intn(4)], vocab)
+				op, ok = concatOp(sc, &r, cfg, tn, sizes[r.Intn(4)%len(sizes)], vocab)
 			case 1, 2, 3, 4:
 				// a value related to the others decoded into this slot: same keys, zero over non-zero, shorter / longer slices
-				op, ok = relatedDecodeOp(sc, &r, cfg, tn, slotSeed(seed, idx, t, tn), sizes[2+r.Intn(4)], vocab)
+				op, ok = relatedDecodeOp(sc, &r, cfg, tn, slotSeed(seed, idx, t, tn), sizes[(2+r.Intn(4))%len(sizes)], vocab)
 				if r.Intn(4) == 0 {
 					op.Mut = 0
 					op.Data, ok = encodeFor(sc, cfg, &op)
